@@ -34,12 +34,12 @@ def w1_case(ctx):
     # (currency) read_currency lower-cases both lookups
     b = F.one(r'^tokinizer::tools::read_currency$')
     ctx.fn(b)
-    gets = list(b.calls(r'BTreeMap::<.*>::get$'))
+    gets = model.deep_calls(ctx, b, r'BTreeMap::<.*>::get$')
     if len(gets) < 2:
         raise AnchorLost('read_currency: expected the alias and the code lookup, found %d' % len(gets))
-    for bid, t in gets:
-        key = b.expr(t['args'][1])
-        tbl = render(b.expr(t['args'][0]))
+    for wb, t, gargs in gets:
+        key = gargs[1]
+        tbl = render(gargs[0])
         if _has_call(key, r'::to_lowercase$') and 'currency' in render(key):
             ctx.ok('W1', 'read_currency: %s.get(to_lowercase(currency))' % tbl, 'shape', site=t['loc'])
         else:
@@ -130,11 +130,11 @@ def w1_case(ctx):
     # (alias words: plus, times, ...) matched on the lower-cased token text; keys are lower-case
     al = F.one(r'^tokinizer::alias_tokinizer::alias_tokinizer$')
     ctx.fn(al)
-    ms = list(al.calls(r'Regex::is_match$'))
-    if len(ms) < 2:
-        raise AnchorLost('alias_tokinizer: expected two is_match sites, found %d' % len(ms))
-    for bid, t in ms:
-        a = al.expr(t['args'][1])
+    ms = model.deep_calls(ctx, al, r'Regex::is_match$')
+    if len(ms) < 1:
+        raise AnchorLost('alias_tokinizer: no is_match site found (also not in its helpers)')
+    for wb, t, margs in ms:
+        a = margs[1]
         if _has_call(a, r'::to_lowercase$') and 'original_text' in render(a):
             ctx.ok('W1', 'alias_tokinizer: is_match(to_lowercase(original_text))', 'shape', site=t['loc'])
         else:
